@@ -107,7 +107,24 @@ func c20Run(c fw.Case, env *fw.Env) fw.Result {
 	}
 	topics := []string{"t/a", "t/b", "t/a/x", "u"}
 	filters := []string{"#", "t/#", "t/+", "t/a", "+/a", "t/a/#", "u", "t/b", "+/+/x"}
+	// messages that asynchronous handlers keep (e.g. hand on to a worker) across later dispatches: nothing a later
+	// Serve call does may reach them
+	var longKept []keptMsg
+	var lkMu sync.Mutex
 	for round := 0; round < p.N; round++ {
+		if round%16 == 15 {
+			lkMu.Lock()
+			for _, k := range longKept {
+				if now := snapMsg(k.m); !now.eq(k.after) {
+					lkMu.Unlock()
+					return fail("kept-message-changed-by-later-dispatch", "a message an asynchronous handler kept as %v reads %v after later messages were dispatched", k.after, now)
+				}
+			}
+			if len(longKept) > 64 {
+				longKept = longKept[len(longKept)-32:]
+			}
+			lkMu.Unlock()
+		}
 		switch p.Mode {
 		case "mux":
 			// ServeMux with 1..6 handlers (some behind ServeAsync); every handler
@@ -250,6 +267,9 @@ func c20Run(c fw.Case, env *fw.Env) fw.Result {
 						e.done = true
 						mu.Unlock()
 						mutateMsg(m, how)
+						lkMu.Lock()
+						longKept = append(longKept, keptMsg{0, m, snapMsg(m)})
+						lkMu.Unlock()
 						wg.Done()
 					})}
 					a.Serve(msg)
